@@ -18,7 +18,8 @@ TLA_JARS = "/opt/veriftools/tla/tla2tools.jar:/opt/veriftools/tla/CommunityModul
 import fcntl
 import random as _random
 
-SLOT_DIR = os.path.join(VERIF, ".work", ".slots")
+# machine-wide (not per checkout): snapshots and worktrees of /verif share the same slots; created on demand
+SLOT_DIR = os.environ.get("VERIF_SLOT_DIR", "/tmp/verif_tlc_slots")
 MODEL_SLOTS = int(os.environ.get("VERIF_MODEL_SLOTS", "3"))
 JUDGE_SLOTS = int(os.environ.get("VERIF_JUDGE_SLOTS", "10"))
 
